@@ -81,7 +81,7 @@ def cases(draw, subject, lengths):
         px = tail[0][3]
         tail = [[px, px, px, px, draw(st.sampled_from((0, 0, 3)))] for _ in range(14)]
         shape += "+flat_tail"
-    case = {"pattern": rows, "tail": tail, "chunk": chunk, "shape": shape, "tf": draw(st.sampled_from((None, None, "T5"))), "lengths": list(lengths)}
+    case = {"decoy": draw(st.integers(0, 2)) == 0, "pattern": rows, "tail": tail, "chunk": chunk, "shape": shape, "tf": draw(st.sampled_from((None, None, "T5"))), "lengths": list(lengths)}
     if subject == "hexital":
         k = draw(st.integers(2, 5))
         members = []
@@ -179,19 +179,25 @@ def _build(case, n):
 
 def run_case(case) -> Result:
     subject = "hexital" if "members" in case else "fn:custom" if "custom" in case["cfg"] else "fn:over-sparse" if "over_sparse" in case["cfg"] else gc.subject_of(case["cfg"])
-    labels = ["shape:" + case["shape"]] + (["has_tf"] if case.get("tf") else []) + (["chunked_appends"] if case.get("chunk", 1) > 1 else [])
+    labels = ["shape:" + case["shape"]] + (["with_decoy"] if case.get("decoy") else []) + (["has_tf"] if case.get("tf") else []) + (["chunked_appends"] if case.get("chunk", 1) > 1 else [])
     counter = LineCounter()
     work = {}
     try:
         for n in case["lengths"]:
             obj = _build(case, n)
             tail = _tail(case, n)
+            # a second live object of the same configuration with a short history of its own, fed in between: state
+            # kept per class or per name instead of per object would make the long one pay for the difference
+            decoy = _build(case, 30) if case.get("decoy") else None
+            dtail = _tail(case, 30) if decoy is not None else []
             for row in tail[:2]:
                 obj.append(mk_candles([row]))
             per = []
             k = case.get("chunk", 1)
             rest = tail[2:]
             for a in range(0, len(rest), k):
+                if decoy is not None and a // k < len(dtail):
+                    decoy.append(mk_candles([dtail[a // k]]))
                 cs = mk_candles(rest[a : a + k])
                 per.append(counter.measure(lambda: obj.append(cs)))
             work[n] = max(per)
